@@ -26,7 +26,8 @@ func checkWatcherTable(c *Ctx) {
 		inl[f] = true
 		c.useFn(f)
 	}
-	w := &Walker{P: c.P, Inline: inl}
+	roles := phiRoles(loop.Header, map[string]func(*ssa.Phi) bool{"session": phiTypeIs("watchSession"), "outch": phiTypeIs("chan Event"), "curVersion": phiTypeIs("string"), "retry": phiTypeIs("*time.Timer"), "retrych": phiTypeIs("<-chan string")})
+	w := &Walker{P: c.P, Inline: inl, PhiNames: roles}
 	paths := w.IterRegion(fn, loop)
 	if w.Truncated {
 		c.undecided(rule, "_watcher.run/too-many-paths", pos, "path limit exceeded")
@@ -340,7 +341,7 @@ func checkWatcherTable(c *Ctx) {
 	}
 
 	// initial state: null session, nil outch/retry/retrych
-	pre := (&Walker{P: c.P}).PreludeRegion(fn, loop)
+	pre := (&Walker{P: c.P, PhiNames: roles}).PreludeRegion(fn, loop)
 	c.paths += len(pre)
 	okk := len(pre) == 1
 	detail := ""
